@@ -60,27 +60,33 @@ structure Scan where
   failed : Bool := false            -- "debit missing": spent credit without spender key
   deriving Inhabited
 
+/-- `exist && hgt != cred.block.Height`: the same transaction was already met at another height -/
+def twoHeights (heightOf : AMap.T TxId Nat) (k : CredKey) : Bool :=
+  match AMap.get heightOf k.tx with
+  | some h => h != k.blk.height
+  | none => false
+
+/-- the debit a deleted credit takes with it: `.error` = flagged spent without spender key ("debit missing") -/
+def spender (c : Credit) : Except Unit (Option CredKey) :=
+  if c.spent then (match c.spentBy with | some dk => .ok (some dk) | none => .error ()) else .ok none
+
+/-- deleteRawCredit + deleteRawUnminedInput of that outpoint -/
+def deleteCredit (s : Store) (k : CredKey) : Store :=
+  { s with credits := AMap.erase s.credits k, pendIns := AMap.erase s.pendIns (k.tx, k.idx) }
+
+def dropDebit (s : Store) : Option CredKey → Store
+  | some dk => { s with debits := AMap.erase s.debits dk }
+  | none => s
+
 /-- one iteration of the loop over the credits bucket -/
 def scanCredit (limit : Nat) (addrs : List Addr) (sc : Scan) (e : CredKey × Credit) : Scan :=
   if sc.stopped || sc.failed then sc
   else if !addrs.contains e.2.sh then sc
-  else
-    let twoHeights := match AMap.get sc.heightOf e.1.tx with
-      | some h => h != e.1.blk.height
-      | none => false
-    if sc.count ≥ limit || twoHeights then { sc with finish := false, stopped := true }
-    else
-      let s := sc.s
-      let s := { s with credits := AMap.erase s.credits e.1 }
-      let s := { s with pendIns := AMap.erase s.pendIns (e.1.tx, e.1.idx) }
-      if e.2.spent then
-        match e.2.spentBy with
-        | some dk =>
-          { sc with s := { s with debits := AMap.erase s.debits dk }, count := sc.count + 1,
-                    heightOf := AMap.put sc.heightOf e.1.tx e.1.blk.height }
-        | none => { sc with failed := true }
-      else
-        { sc with s := s, count := sc.count + 1, heightOf := AMap.put sc.heightOf e.1.tx e.1.blk.height }
+  else if sc.count ≥ limit || twoHeights sc.heightOf e.1 then { sc with finish := false, stopped := true }
+  else match spender e.2 with
+    | .error _ => { sc with failed := true }
+    | .ok d => { sc with s := dropDebit (deleteCredit sc.s e.1) d, count := sc.count + 1,
+                         heightOf := AMap.put sc.heightOf e.1.tx e.1.blk.height }
 
 /-- removeRelevantCredit: iterate the credits bucket (in its stored order), at most `limit` deletions -/
 def removeRelevantCredit (limit : Nat) (s : Store) (addrs : List Addr) : Scan :=
@@ -103,42 +109,53 @@ def removable (own : Own) (s : Store) (addrs : List Addr) (tx : Tx) : Bool :=
   !(tx.outs.any (fun o => o.cls != .raw && !addrs.contains o.addr && (AMap.get own o.addr).isSome)) &&
   !spendsCreditOfOtherWallet s addrs tx
 
+/-- one pending transaction hit by the unmined-credit scan: delete its record if nobody else needs it -/
+def unminedStep (own : Own) (addrs : List Addr) (acc : Store × List TxId) (h : TxId) : Store × List TxId :=
+  match AMap.get acc.1.pending h with
+  | none => acc
+  | some tx =>
+    if removable own acc.1 addrs tx then ({ acc.1 with pending := AMap.erase acc.1.pending h }, acc.2 ++ [h])
+    else acc
+
 /-- the unmined half of RemoveRelevantTx -/
 def removeUnminedTxs (own : Own) (s : Store) (addrs : List Addr) (hashes : List TxId) : Store × List TxId :=
-  hashes.foldl (fun (acc : Store × List TxId) h =>
-    match AMap.get acc.1.pending h with
-    | none => acc
-    | some tx =>
-      if removable own acc.1 addrs tx then ({ acc.1 with pending := AMap.erase acc.1.pending h }, acc.2 ++ [h])
-      else acc) (s, [])
+  hashes.foldl (unminedStep own addrs) (s, [])
 
 /-- fetchRawTxRecordByHashHeight -/
 def txRecordAt (s : Store) (id : TxId) (height : Nat) : Option ((TxId × BlockMeta) × (BlkId × Nat)) :=
   s.txrecs.find? (fun e => e.1.1 = id && e.1.2.height = height)
 
+/-- one (transaction, height) pair of heightOfTx: delete the tx record if nobody else needs it;
+    `none` = FetchTxByFileLoc failed, the whole step fails -/
+def minedStep (c : Ctx) (addrs : List Addr) (acc : Store × List (Nat × TxId)) (e : TxId × Nat) :
+    Option (Store × List (Nat × TxId)) :=
+  match txRecordAt acc.1 e.1 e.2 with
+  | none => some acc                                        -- "tx not found, maybe already deleted"
+  | some rec =>
+    match c.node.txByFileLoc rec.2 with
+    | none => none
+    | some tx =>
+      if removable c.own acc.1 addrs tx then
+        some ({ acc.1 with txrecs := AMap.erase acc.1.txrecs rec.1 }, acc.2 ++ [(rec.1.2.height, e.1)])
+      else some acc
+
 /-- the mined half: delete the tx records that nobody else needs; returns (store, deleted ids by height) -/
 def removeMinedTxs (c : Ctx) (s : Store) (addrs : List Addr) (heightOf : AMap.T TxId Nat) :
     Option (Store × List (Nat × TxId)) :=
-  heightOf.foldlM (fun (acc : Store × List (Nat × TxId)) e =>
-    match txRecordAt acc.1 e.1 e.2 with
-    | none => some acc                                        -- "tx not found, maybe already deleted"
-    | some rec =>
-      match c.node.txByFileLoc rec.2 with
-      | none => none                                          -- FetchTxByFileLoc error: the step fails
-      | some tx =>
-        if removable c.own acc.1 addrs tx then
-          some ({ acc.1 with txrecs := AMap.erase acc.1.txrecs rec.1 }, acc.2 ++ [(rec.1.2.height, e.1)])
-        else some acc) (s, [])
+  heightOf.foldlM (minedStep c addrs) (s, [])
+
+/-- one height of checkBlockRecordAfterTxRemoved -/
+def blockStep (deleted : List (Nat × TxId)) (s : Store) (h : Nat) : Store :=
+  match AMap.get s.blocks h with
+  | none => s
+  | some (bh, txs) =>
+    let keep := txs.filter (fun t => !deleted.contains (h, t))
+    if keep.isEmpty then { s with blocks := AMap.erase s.blocks h }
+    else { s with blocks := AMap.put s.blocks h (bh, keep) }
 
 /-- checkBlockRecordAfterTxRemoved -/
 def checkBlockRecords (s : Store) (deleted : List (Nat × TxId)) : Store :=
-  (deleted.map (·.1)).eraseDups.foldl (fun s h =>
-    match AMap.get s.blocks h with
-    | none => s
-    | some (bh, txs) =>
-      let keep := txs.filter (fun t => !deleted.contains (h, t))
-      if keep.isEmpty then { s with blocks := AMap.erase s.blocks h }
-      else { s with blocks := AMap.put s.blocks h (bh, keep) }) s
+  (deleted.map (·.1)).eraseDups.foldl (blockStep deleted) s
 
 structure StepOut where
   s : Store
